@@ -296,7 +296,12 @@ def datetime_values(ctx: Ctx) -> list[tuple[str, object]]:
                td(hours=5, minutes=30, seconds=15), td(hours=-3, seconds=-1), td(hours=1, microseconds=123),
                td(hours=23, minutes=59, seconds=59, microseconds=999999), -td(hours=23, minutes=59)]
     stamps = [(2021, 7, 23, 15, 0, 0, 0), (1970, 1, 1, 0, 0, 0, 1), (1999, 12, 31, 23, 59, 59, 999999), (2024, 2, 29, 12, 30, 45, 123456),
-              (2000, 1, 1, 0, 0, 0, 999), (2000, 1, 1, 0, 0, 0, 1000), (2, 1, 1, 0, 0, 0, 500), (9998, 12, 31, 23, 59, 59, 999000)]
+              (2000, 1, 1, 0, 0, 0, 999), (2000, 1, 1, 0, 0, 0, 1000), (2, 1, 1, 0, 0, 0, 500), (9998, 12, 31, 23, 59, 59, 999000),
+              # boundaries of the fixed-width fields: 1-, 2-, 3- and 4-digit years, first / last representable day,
+              # sub-millisecond parts just below / at / above a rounding boundary
+              (1, 1, 1, 0, 0, 0, 0), (9, 9, 9, 9, 9, 9, 9009), (10, 10, 10, 10, 10, 10, 10010), (99, 12, 31, 23, 59, 59, 999999),
+              (100, 1, 1, 0, 0, 0, 499), (999, 12, 31, 23, 59, 59, 999499), (1000, 1, 1, 0, 0, 0, 500), (1582, 10, 15, 6, 7, 8, 123456),
+              (9999, 12, 31, 23, 59, 59, 999500), (9999, 12, 31, 23, 59, 59, 999999)]
     vals: list[tuple[str, object]] = []
     for i, st in enumerate(stamps):
         for j, off in enumerate(offsets):
@@ -314,6 +319,10 @@ def datetime_values(ctx: Ctx) -> list[tuple[str, object]]:
     vals += [("naive-year1", datetime.datetime(1, 1, 1)), ("wrongtype", "2020-01-01T00:00:00"), ("wrongtype", datetime.date(2020, 1, 1)), ("wrongtype", 5)]
     return vals
 
+
+# the patterns the Lean model mirrors (`reSet` / `reGet`); used when the code no longer exposes its own
+MODEL_RE_SET = re.compile(r"(?<=[+-]\d\d):(?=\d\d$)")
+MODEL_RE_GET = re.compile(r"(?<=[+-]\d\d)(?=\d\d$)")
 
 # initial XML data per kind (canonical, non-canonical, junk)
 INITIAL = {
@@ -340,7 +349,14 @@ def run(ctx: Ctx) -> Outcome:
     rng = ctx.rng
     use_model = os.environ.get("VERIF_NO_MODEL") != "1"
     SelectorRules = pvmt_config.SelectorRules
-    re_set, re_get = _pods.DatetimePOD.re_set, _pods.DatetimePOD.re_get
+    # the two regular expressions are internals: read them defensively. If one is gone (a refactoring), its
+    # correspondence stream is reported as broken, the harness goes on with the patterns the model mirrors, and the
+    # behavioural cases (set -> get, set -> save -> reload -> get) decide whether anything is wrong.
+    re_set = getattr(_pods.DatetimePOD, "re_set", None)
+    re_get = getattr(_pods.DatetimePOD, "re_get", None)
+    re_missing = [n for n, x in (("re_set", re_set), ("re_get", re_get)) if not hasattr(x, "sub")]
+    re_set = re_set if hasattr(re_set, "sub") else MODEL_RE_SET
+    re_get = re_get if hasattr(re_get, "sub") else MODEL_RE_GET
 
     data = gen_pods.collect()
     rows = data["rows"]
@@ -819,6 +835,8 @@ def run(ctx: Ctx) -> Outcome:
     rstrs += ["".join(rng.choice(ralpha) for _ in range(rng.randint(3, 12))) for _ in range(ctx.pick(1500, 20000))]
     rstrs += [rng.choice("ab1") + rng.choice("+-") + "".join(rng.choice("0123456789:") for _ in range(rng.randint(3, 6))) + rng.choice(["", "\n"])
               for _ in range(ctx.pick(1500, 20000))]
+    for n in re_missing:
+        out.disagree("re." + n[3:], f"DatetimePOD.{n}", "attribute no longer exists", "modelled as reSet/reGet")
     for s in rstrs:
         direct("re.set", {"op": "re.set", "s": s}, re_set.sub("", s))
         direct("re.get", {"op": "re.get", "s": s}, re_get.sub(":", s))
